@@ -270,7 +270,7 @@ impl GlobalCollector {
         {
             SPSC_RXS.lock().retain_mut(|rx| {
                 #[cfg(fastrace_verif)]
-                crate::verif::hook(|| crate::verif::Site::BeforeDrain);
+                crate::verif::hook(|| crate::verif::Site::BeforeDrain { ring: rx.ring_id() });
                 loop {
                     match rx.try_recv() {
                         #[cfg(fastrace_verif)]
